@@ -1313,6 +1313,9 @@ func (i *interpreter) conv(t_dst, t_src types.Type, x value) value {
 		}
 		i.path.unsupported("conversion of symbolic scalar to %v", t_dst)
 	}
+	if f, ok := x.(symF64); ok {
+		return i.convSymF64(t_dst, f)
+	}
 	if ss, ok := x.(sstr); ok {
 		switch ut_dst := ut_dst.(type) {
 		case *types.Slice:
